@@ -511,9 +511,10 @@ def observe(slot, out, written, detail):
     snap = snapshot(slot)
     wd = None
     if written is not None:
-        wd = sha(blank_times(written) if slot.blank else written)
+        canon = blank_times(written) if slot.blank else written
+        wd = sha(canon)
         if detail:
-            wd += ':' + written[:4000].decode('utf-8', 'replace')
+            wd += ':' + canon[:4000].decode('utf-8', 'replace')
     ob = dict(out=out, state=state_line(slot), snap=sha(snap.encode()), written=wd)
     if detail:
         ob['full'] = snap
@@ -695,7 +696,7 @@ def shared_objects(slots):
     for a in range(len(graphs)):
         for b in range(a + 1, len(graphs)):
             common = set(graphs[a][1]) & set(graphs[b][1])
-            for i in sorted(common, key=lambda i: graphs[a][1][i][1])[:3]:
+            for i in sorted(common, key=lambda i: (graphs[a][1][i][1].count('.') + graphs[a][1][i][1].count('['), graphs[a][1][i][1]))[:1]:
                 o, pa = graphs[a][1][i]
                 hits.append((graphs[a][0], graphs[b][0], re.sub(r'\d+', '', pa), re.sub(r'\d+', '', graphs[b][1][i][1]), type(o).__name__))
     return hits
@@ -909,6 +910,8 @@ def compare(case, inter, solos):
 def text_diff(a, b):
     if not a or not b:
         return ''
+    if a[16:17] == ':' and b[16:17] == ':':     # written / query observables in detail mode: digest:text
+        a, b = a[17:], b[17:]
     n = next((k for k in range(min(len(a), len(b))) if a[k] != b[k]), min(len(a), len(b)))
     return 'snapshots diverge at char %d: interleaved …%s… vs solo …%s…' % (n, a[max(0, n - 120):n + 80], b[max(0, n - 120):n + 80])
 
@@ -1112,6 +1115,16 @@ def _run(ctx, z):
         if ans[-3:] != ['bad-op'] * 3:
             raise core.Infra('driver C20 accepted malformed lines: %r' % ans[-3:])
         model = (ans, index)
+        # generator power: on how many of these schedules would the modelled leak (module-level tag, shared mask) show?
+        exposed = 0
+        for (start, steps, ms) in index:
+            block = 1 + len(steps) + 2 * len(ms)
+            ltail = ans[start + block:start + 2 * block][1 + len(steps):]
+            if any(ltail[2 * k] != ltail[2 * k + 1] for k in range(len(ms))):
+                exposed += 1
+        ctx.notes['schedules_exposing_the_modelled_leak'] = '%d of %d (same schedules through the leaky machine: projection != solo)' % (exposed, len(cases))
+        if len(cases) >= 50 and exposed == 0:
+            raise core.Infra('no generated schedule exposes the leak of the leaky Lean machine: generator too weak')
 
     # --- pristine solo runs (each in a fresh fork of the zygote)
     t0 = time.time()
@@ -1131,7 +1144,6 @@ def _run(ctx, z):
     # --- interleaved runs, all in this process one after the other (history accumulates), monitor on
     monitor = Monitor()
     reported = set()
-    exposed = 0
     mon_cases = []
     for ci, c in enumerate(cases):
         inter = run_inter((c, False), monitor)
@@ -1154,12 +1166,12 @@ def _run(ctx, z):
             sig = 'iso:%s:%s' % (diff['op'], diff['field'])
             if sig not in reported:
                 reported.add(sig)
-                report_iso(ctx, z, cases, ci, diff)
+                report_iso(ctx, z, cases, ci, diff, reported)
         if inter['monitor']:
             mon_cases.append((c, inter['monitor']))
         for a, b, pa, pb, tn in inter['shared']:
             sig = 'corr:share:%s' % pa
-            if sig not in reported:
+            if sig not in reported and sum(1 for r in reported if r.startswith('corr:share:')) < 2:
                 reported.add(sig)
                 small = shrink(z, c, lambda cc: any(h[2] == pa for h in z.call('inter', [(cc, False)])[0]['shared']), budget=40)
                 ctx.violation(sig, 'a mutable %s is reachable from two documents (%s of one, %s of the other): the operations do not have the '
@@ -1192,9 +1204,6 @@ def _run(ctx, z):
                     raise core.Infra('Lean machine: projection differs from solo run (contradicts schedule_projection): %r vs %r' % (pr, so))
                 if bad is None and pr.partition(' ; ')[2] != inter['final'][i]['state']:
                     bad = (len(c['sched']), 'final', pr, inter['final'][i]['state'])
-            ltail = lk[1 + len(steps):]
-            if any(ltail[2 * k] != ltail[2 * k + 1] for k in range(len(ms))):
-                exposed += 1
             if bad:
                 sig = 'corr:model:%s' % bad[1]
                 if sig not in reported:
@@ -1229,11 +1238,6 @@ def _run(ctx, z):
     ctx.notes['module_state_attributes_watched'] = len(monitor.base)
     ctx.notes['module_state_writes_seen'] = len(monitor.hits)
 
-    if model is not None:
-        ctx.notes['schedules_exposing_the_modelled_leak'] = '%d of %d (same schedules through the leaky machine: projection != solo)' % (exposed, ctx.evaluations)
-        if ctx.evaluations >= 50 and exposed == 0:
-            raise core.Infra('no generated schedule exposes the leak of the leaky Lean machine: generator too weak')
-
     # --- (d) threads on distinct documents
     if ctx.thorough:
         thread_soak(ctx, z, reported, 60.0)
@@ -1243,31 +1247,35 @@ def _run(ctx, z):
     ctx.assumptions.append('solo runs are made in forks of a process that imported collada and never touched a document; module import is the baseline state')
 
 
-def report_iso(ctx, z, cases, ci, diff):
+def report_iso(ctx, z, cases, ci, diff, reported):
     """shrink and report an interleaved-vs-solo difference seen in case `ci`.  The interleaved runs share one
-    process, so the cause may lie in earlier cases: they are prepended (1, 2, 4, … of them) until the difference
-    shows up from a pristine process"""
-    want = (diff['op'], diff['field'])
+    process, so the cause may lie in earlier cases: they are prepended (1, 2, 4, … of them) until a difference
+    shows up from a pristine process; the signature is that of the difference reproduced there"""
+    base = want = None
+    for h in (0, 1, 2, 4, 8, 16, 32, 64, 128):
+        h = min(h, ci)
+        cand = concat_cases(cases[ci - h:ci + 1])
+        d, _ = judge(z, cand)
+        if d is not None:
+            base, want = cand, (d['op'], d['field'])
+            break
+        if h == ci:
+            break
+    if base is None:
+        ctx.violation('corr:unreproduced:iso:%s:%s' % (diff['op'], diff['field']),
+                      'document %d shows %s=%r for %s in the run of all schedules in one process but %r alone; the difference did not '
+                      'show up again from a pristine process' % (diff['doc'], diff['field'], str(diff['inter'][diff['field']])[:200], diff['op'],
+                                                                  str(diff['solo'][diff['field']])[:200]),
+                      dict(kind='iso', case=concat_cases(cases[max(0, ci - 8):ci + 1])), found_input=False)
+        return
+    sig = 'iso:%s:%s' % want
+    if want != (diff['op'], diff['field']) and sig in reported:
+        return
+    reported.add(sig)
 
     def pred(cc):
         d, _ = judge(z, cc)
         return d is not None and (d['op'], d['field']) == want
-    base = None
-    for h in (0, 1, 2, 4, 8, 16, 32, 64, 128):
-        h = min(h, ci)
-        cand = concat_cases(cases[ci - h:ci + 1])
-        if pred(cand):
-            base = cand
-            break
-        if h == ci:
-            break
-    sig = 'iso:%s:%s' % want
-    if base is None:
-        ctx.violation('corr:unreproduced:' + sig,
-                      'document %d shows %s=%r for %s in the run of all schedules in one process but %r alone; the difference did not '
-                      'show up again from a pristine process' % (diff['doc'], diff['field'], diff['inter'][diff['field']], diff['op'], diff['solo'][diff['field']]),
-                      dict(kind='iso', case=concat_cases(cases[max(0, ci - 8):ci + 1])), found_input=False)
-        return
     small = shrink(z, base, pred)
     d2, inter = judge(z, small, detail=True)
     mon = '; module state written: %s' % sorted(set(a for _, ch in inter['monitor'] for a in ch))[:4] if inter['monitor'] else ''
@@ -1300,7 +1308,7 @@ def directed_search(ctx, z, c, where, reported):
             sig = 'iso:%s:%s' % (d['op'], d['field'])
             if sig not in reported:
                 reported.add(sig)
-                report_iso(ctx, z, [cand], 0, d)
+                report_iso(ctx, z, [cand], 0, d, reported)
             return True
     return False
 
